@@ -67,6 +67,12 @@ class PolyAFixer:
 
         if polyt_exon_count > 0 and polya_exon_count > 0:
             logger.debug("Both PolyA and PolyT fake terminal exons found: %d, %d" % (polya_exon_count, polyt_exon_count))
+        # an exon is counted from both sides when the T-rich head and the A-rich tail overlap in it
+        while polyt_exon_count + polya_exon_count > len(read_exons):
+            if polyt_exon_count >= polya_exon_count:
+                polyt_exon_count -= 1
+            else:
+                polya_exon_count -= 1
         if polyt_exon_count + polya_exon_count == len(read_exons):
             logger.debug("All exons seem to be consist of polyA/T")
             polyt_exon_count -= 1
